@@ -249,7 +249,29 @@ def c22(ck, F, tier):
     guarded(ck, rq.quote_rule, F)
 
 
-PROPS = {"C08": c08, "C22": c22, "C34": c34, "C21": c21, "C05": c05, "C28": c28, "C10": c10, "C29": c29, "C17": c17, "C01": c01, "C02": c02, "C03": c03, "C04": c04, "C23": c23, "C26": c26}
+def c09(ck, F, tier):
+    import rules_paren as rp
+    import rules_names as rn
+    import rules_walk as rw
+    from tables import load_tables
+    ck.explanation = (
+        "Static decision of print/parse agreement on operator nesting, exhaustively over every (parent kind, sub-kind, "
+        "position, child kind, child sub-kind, export flag) cell: the grammar side (which child kinds each position can hold "
+        "without parentheses) is derived from the MIR of the recursive-descent functions Parser::parse_* by reaching "
+        "definitions; the printer side (whether stringify wraps the recursive result in parentheses) by the finite-domain path "
+        "interpreter, which reconstructs the nested format templates of the returned string. Obligation: child not admissible "
+        "=> wrapped. Plus (LIT) operator/error literal tables of printer and lexer are inverse, and (COVER-walk) the display, "
+        "English, R1C1 and xlsx printers all go through the same stringify. Number/string literal round trip is not decided.")
+    ck.rule("PAREN", "child kind not producible by the grammar at that position => printer parenthesises it", floor=800, exhaustive=True)
+    ck.rule("TABLE-errors", "error literal tables agree (printer <-> parsers)", floor=40, exhaustive=True)
+    ck.rule("LIT", "operator literals printed by Display are the characters the lexer maps back to the same operator", floor=10, exhaustive=True)
+    guarded(ck, rp.paren_rule, F, "PAREN", "stringify::stringify")
+    T = load_tables(F)
+    guarded(ck, rn.error_tables, F, T)
+    guarded(ck, rp.lit_rule, F)
+
+
+PROPS = {"C08": c08, "C09": c09, "C22": c22, "C34": c34, "C21": c21, "C05": c05, "C28": c28, "C10": c10, "C29": c29, "C17": c17, "C01": c01, "C02": c02, "C03": c03, "C04": c04, "C23": c23, "C26": c26}
 
 
 def run(pid, tier):
